@@ -686,9 +686,13 @@ def _get_samples_from_slice_sampler_(gp: gpr.GP, hyp_gp, optim_state, options):
     sampler_failed = True
     for hyp in new_hyp:
         try:
+            # The starting point has to lie within the (possibly nudged) bounds
+            hyp_start = np.minimum(
+                np.maximum(hyp.flatten(), gp.lower_bounds), gp.upper_bounds
+            )
             hyp_sampler = SliceSampler(
                 sample_f,
-                hyp.flatten(),
+                hyp_start,
                 width,
                 gp.lower_bounds,
                 gp.upper_bounds,
